@@ -2,7 +2,7 @@
 from collections import deque
 
 from .. import tables as T
-from ..flow import Graph, OUTCOME, DATA, CTRL, MOVE, SHAPE, DISCR, strip_refs
+from ..flow import Graph, OUTCOME, DATA, CTRL, ALIAS, MOVE, SHAPE, DISCR, strip_refs
 from ..engine import short, where_of
 from ..rules import influence as R1
 from ..rules import lenguard as LG
@@ -24,7 +24,9 @@ EXPLANATION = (
     "iteration) it belongs to - no row or polynomial is committed / opened without its blinding scalar. "
     "R6f: in Hyrax open every draw that flows into a per-polynomial proof is made inside the per-polynomial loop (one "
     "mask per proof, not one per call). R6g: in the IPA and Marlin committers nothing read from the `rand` field of the "
-    "commitment randomness flows into its `shifted_rand` (the shifted commitment has a blinding of its own). R1p: in "
+    "commitment randomness flows into its `shifted_rand` (the shifted commitment has a blinding of its own). R6h: no "
+    "size operand of a draw (the degree of a random polynomial, the length of a random vector) is data-derived from the "
+    "polynomial being hidden - how much randomness is drawn depends on the key, the point and the declared bounds only. R1p: in "
     "the loops of the committers (and of what they call, KZG10::commit included) a variable holding scheme data that "
     "is carried from one iteration to the next is an accumulator read after the loop - a blinding polynomial drawn "
     "for one polynomial is never still in place when the next one is committed. KZG10::commit refuses with MissingRng when hiding is requested without a generator. R12: the hiding polynomial "
@@ -198,6 +200,7 @@ def run(rep, ctx, tier):
         n_draws += len(draws)
         hid = hiding_conditions(g, key, body, roles) if optional else set()
         per_body = {}
+        secret = None
         for bid, blk, t in draws:
             k = per_body.get(bid, 0)
             per_body[bid] = k + 1
@@ -225,6 +228,19 @@ def run(rep, ctx, tier):
             else:
                 rep.add("R10", dk, False, "randomness drawn at %s from a generator that is not derived from the rng "
                         "parameter of %s" % (t["span"], short(body.id)), t["span"])
+            # R6h: how much randomness is drawn does not depend on the secret: no size operand of the draw is
+            # data-derived from the polynomial itself (its degree, its coefficients) - only from the key, the point and
+            # the declared bounds
+            sizes = [a["pl"]["l"] for a in t["args"] if a["k"] in ("copy", "move") and a["pl"]["l"] not in gens]
+            if sizes:
+                if secret is None:
+                    src = ("FIELD", LP, "polynomial")
+                    secret = {s_[0] for s_ in g.reach([src], kinds=(DATA, ALIAS), typed=False)} if src in g.fwd else set()
+                leak = [l for l in sizes if (bid, l) in secret]
+                rep.add("R6h", "%s:mask-size-independent@%s#%d" % (key, short(bid), k), not leak,
+                        ("the size operand(s) of the draw at %s do not depend on the polynomial being hidden" % t["span"]) if not leak else
+                        ("the amount of randomness drawn at %s is computed from the polynomial being hidden (its degree / "
+                         "coefficients): the mask covers only what the secret occupies, and its size leaks it" % t["span"]), t["span"])
             if key in ALWAYS_HIDING:
                 # R6d: where hiding is not optional no path completes a row / a polynomial / the call without the draw
                 by = bypass_of_draw(b, blk)
@@ -353,7 +369,7 @@ def run(rep, ctx, tier):
     from ..rules import carried as R1P
     n_loops = n_carried = 0
     for key, body, adt, roles, optional in anchors(f):
-        if body is not None and key.endswith(".commit") and adt is not None:
+        if body is not None and (key.endswith(".commit") or key == "hyrax.open") and adt is not None:
             nl, nc = R1P.run(rep, ctx, key, [body.id], adt, "R1p", stop=tuple(x for x in R1P.STOP if x not in ("commit", "rand")))
             n_loops += nl
             n_carried += nc
